@@ -8,6 +8,7 @@ import (
 	"encoding/json"
 	"fmt"
 	"math"
+	"strings"
 
 	"github.com/refraction-networking/uquic/internal/verifmc/explore"
 )
@@ -258,8 +259,10 @@ type c09Plan struct {
 }
 
 // covers: every range lies inside the stream by its documentation and together they
-// cover it (the plan is "in range" and must be accepted).
-func (p c09Plan) covers() (inRange, covers, emptyDg bool) {
+// cover it (the plan is "in range" and must be accepted). Plans with an empty range or a
+// datagram without bytes are degenerate: the documentation does not say whether they are
+// valid, so no acceptance is demanded for them.
+func (p c09Plan) covers() (inRange, covers, emptyDg, emptyRange bool) {
 	sent := make([]bool, p.L)
 	inRange = true
 	for _, dg := range p.Dgs {
@@ -271,6 +274,9 @@ func (p c09Plan) covers() (inRange, covers, emptyDg bool) {
 				continue
 			}
 			bytes += e - s
+			if e == s {
+				emptyRange = true
+			}
 			for i := s; i < e; i++ {
 				sent[i] = true
 			}
@@ -447,11 +453,11 @@ func c09QFlightPart() explore.Part {
 			f.Datagrams = append(f.Datagrams, fr)
 		}
 		plan := c09Plan{L: L, Dgs: dgs}
-		inRange, covers, _ := plan.covers()
+		inRange, covers, _, emptyRange := plan.covers()
 		describe := func() string { return fmt.Sprintf("QUICFlightFrames%v on a %d byte stream", dgs, L) }
 		return c09Safe("QUICFlightFrames", func() *explore.Fail {
 			payloads, err := f.BuildFlight(c09Slice(0, L), []InitialDatagramBudget{{MaxFrameBytes: 1200}})
-			if fl := c09FlightVerdict("QUICFlightFrames", describe, payloads, err, L, inRange && covers && len(dgs) > 0 && L > 0, acc); fl != nil {
+			if fl := c09FlightVerdict("QUICFlightFrames", describe, payloads, err, L, inRange && covers && !emptyRange && len(dgs) > 0 && L > 0, acc); fl != nil {
 				return fl
 			}
 			p, err := f.Build(c09Slice(0, L))
@@ -594,7 +600,7 @@ func c09RFCases(thorough bool) []c09RFCase {
 					for _, d := range dgs {
 						n += len(d)
 					}
-					if _, cov, _ := (c09Plan{L: L, Dgs: dgs}).covers(); n == 3 && cov && pi < 5 && pi != 3 {
+					if _, cov, _, _ := (c09Plan{L: L, Dgs: dgs}).covers(); n == 3 && cov && pi < 5 && pi != 3 {
 						cs = append(cs, c09RFCase{L, pi, dgs})
 					}
 					return true
@@ -614,7 +620,7 @@ func c09QRFlightPart() explore.Part {
 		for _, dg := range c.Dgs {
 			f.PerDatagram = append(f.PerDatagram, QUICRandomFlightDatagram{CryptoRanges: dg, Frames: pre.F})
 		}
-		inRange, covers, emptyDg := c09Plan{L: c.L, Dgs: c.Dgs}.covers()
+		inRange, covers, emptyDg, _ := c09Plan{L: c.L, Dgs: c.Dgs}.covers()
 		must := pre.Doc && inRange && covers && !emptyDg && len(c.Dgs) > 0 && c.L > 0
 		describe := func() string {
 			return fmt.Sprintf("QUICRandomFlightFrames ranges %v, Frames %s %+v, %d byte stream", c.Dgs, pre.Name, pre.F, c.L)
@@ -726,7 +732,9 @@ func c09ValidatePart() explore.Part {
 	}
 	one := func(L int, payloads [][]byte, names []string, acc *c09Acc) *explore.Fail {
 		return c09Safe("validateInitialFlight", func() *explore.Fail {
-			kind, msg, _ := c09CheckFlight(payloads, 0, L)
+			kind, msg, class := c09CheckFlight(payloads, 0, L)
+			// an empty CRYPTO frame is degenerate: no acceptance is demanded for such a flight
+			degenerate := kind == "" && !strings.Contains(class, "empty=0")
 			maxLen := 0
 			for _, p := range payloads {
 				maxLen = max(maxLen, len(p))
@@ -742,6 +750,8 @@ func c09ValidatePart() explore.Part {
 				switch {
 				case err == nil && kind != "":
 					return explore.Failf("validateInitialFlight:accepts-"+kind, "flight %v of a %d byte stream accepted, but: %s", names, L, msg)
+				case err != nil && kind == "" && degenerate:
+					acc.out.Add("validate rejected a complete flight with an empty CRYPTO frame: " + c09ErrClass(err))
 				case err != nil && kind == "" && bud.name != "tiny":
 					return explore.Failf("validateInitialFlight:rejects-complete", "flight %v of a %d byte stream is complete and fits (%s budget), rejected: %v", names, L, bud.name, err)
 				case err == nil:
